@@ -161,6 +161,16 @@ def structural():
                 c.ok(ob, detail="assigned afresh during transcription")
             else:
                 c.fail(ob, "attribute self.%s accumulates during transcription (%s) but clean() does not reset it" % (a, assigned.get(a)))
+    # the invalidation flag lives on the master (it is only ever read there)
+    mod, cls = classes["Stage"]
+    st = next(f for f in cls.body if isinstance(f, ast.FunctionDef) and f.name == "_set_transcribed")
+    ok = False
+    for n in ast.walk(st):
+        if isinstance(n, ast.Assign):
+            for t in n.targets:
+                if isinstance(t, ast.Attribute) and t.attr == "_var_is_transcribed" and isinstance(t.value, ast.Attribute) and t.value.attr == "master":
+                    ok = True
+    (c.ok if ok else lambda n_, **k: c.fail(n_, "the flag is not written on self.master, where is_transcribed reads it"))("stage:Stage._set_transcribed:ensures:writes-the-master-flag")
     # re-transcription starts clean
     mod, cls = classes["Ocp"]
     tr = next(f for f in cls.body if isinstance(f, ast.FunctionDef) and f.name == "_transcribe")
